@@ -87,6 +87,18 @@ fn main() {
     if args.len() >= 10 && args[1] == "scrypt-child" {
         c18::child_main(&args[2..]);
     }
+    if args.len() >= 4 && args[1] == "c20-envchild" {
+        c20::envchild_main(&args[2..]);
+    }
+    if args.len() >= 4 && args[1] == "rss-child" {
+        c11::rss_child_main(&args[2..]);
+    }
+    if args.len() >= 4 && args[1] == "fork-child" {
+        c07::fork_child_main(&args[2..]);
+    }
+    if args.len() >= 4 && args[1] == "stack-child" {
+        c06::stack_child_main(&args[2..]);
+    }
     if args.len() >= 4 && args[1] == "ffi-child" {
         c18::ffi_child_main(&args[2..]);
     }
@@ -133,6 +145,10 @@ fn main() {
             }
         }
         Err(e) => report::machinery(&e),
+    }
+    if args[1] == "find-case-twin" {
+        c12::find_case_twin();
+        return;
     }
     if args[1] == "golden-write" {
         c06::golden_write();
